@@ -9,6 +9,7 @@ import (
 
 	frugal "github.com/Workiva/frugal/lib/go"
 	"github.com/apache/thrift/lib/go/thrift"
+	"github.com/nats-io/nats.go"
 	"verif/simrt"
 )
 
@@ -85,6 +86,13 @@ func natsdrainHarness(rc *RunCtx) {
 		b.MaxPayload = 300
 	}
 	closeAtOnce := tp.Intn("closeafter", 3) == 2
+	if k := tp.Intn("conncfg", 4); k >= 2 {
+		// an application-chosen drain timeout on the connection (it governs Conn.Drain; the server drains
+		// subscriptions and must wait for its own backlog however long that takes)
+		b.ConnOptions = append(b.ConnOptions, nats.DrainTimeout([]time.Duration{100 * time.Millisecond, 5 * time.Millisecond}[k-2]))
+		rc.Fault("short-connection-drain-timeout")
+	}
+	queueGroup := tp.Intn("conncfg", 3) == 2
 	workers := 1 + tp.Intn("cfg", rc.Scale(4, 6))
 	qlen := 1 + tp.Intn("cfg", rc.Scale(8, 16))
 	nreq := 1 + tp.Intn("cfg", rc.Scale(30, 80))
@@ -169,7 +177,13 @@ func natsdrainHarness(rc *RunCtx) {
 		srvConnID = len(b.conns)
 		_ = srvConnID
 		pf := frugal.NewFProtocolFactory(thrift.NewTBinaryProtocolFactoryConf(nil))
-		srv := frugal.NewFNatsServerBuilder(nc, &drainProc{h: h}, pf, subjects).
+		bld := frugal.NewFNatsServerBuilder(nc, &drainProc{h: h}, pf, subjects)
+		if queueGroup {
+			// the only member of its queue group: nobody else can take what it hands back
+			bld = bld.WithQueueGroup("workers")
+			rc.Fault("server-in-a-queue-group")
+		}
+		srv := bld.
 			WithWorkerCount(uint(workers)).WithQueueLength(uint(qlen)).
 			WithRequestReceivedEventHandler(func(map[interface{}]interface{}) {}).
 			WithRequestStartedEventHandler(func(map[interface{}]interface{}) {}).
